@@ -227,7 +227,53 @@ func item(n int, modes []int, scr []string) *explore.Item {
 	}
 }
 
+// zeroItem: a limiter of size 0 admits nobody. A live-context Acquire stays blocked (until its context ends), a
+// pre-cancelled or later-cancelled one returns without a token, and nobody is ever counted as a holder.
+func zeroItem(withLater bool) *explore.Item {
+	name := "n=0 live+precancelled"
+	if withLater {
+		name = "n=0 live+cancelled-later"
+	}
+	return &explore.Item{Name: name, Bound: -1, Body: func(x *explore.Exec) {
+		s := &state{x: x, n: 0}
+		base := concurrencylimiter.With(context.Background(), 0)
+		liveCtx, cancelLive := rt.WithCancel(base)
+		returned := rt.NewVar(0)
+		rt.Go(func() { // live: must not get past Acquire while its context is alive
+			_, rel := concurrencylimiter.Acquire(liveCtx)
+			if liveCtx.Err() == nil {
+				s.enter()
+				s.dec()
+			}
+			rel()
+			returned.Update(func(v int) int { return v + 1 })
+		})
+		other := ctxPreCancelled
+		if withLater {
+			other = ctxCancelledLater
+		}
+		rt.Go(func() {
+			runScript(s, base, other, "r")
+			returned.Update(func(v int) int { return v + 1 })
+		})
+		rt.Quiesce()
+		if returned.Peek() != 1 {
+			x.Fail("all-return", "", "%d threads returned from Acquire on a limiter of size 0 with one live and one cancelled context, want exactly 1", returned.Peek())
+		}
+		cancelLive()
+		rt.Quiesce()
+		if returned.Peek() != 2 {
+			x.Fail("all-return", "", "Acquire did not return after its context was cancelled")
+		}
+		x.Outcome("max=%d", s.maxIn)
+		x.Nontrivial()
+	}}
+}
+
 func parseItem(name string) *explore.Item {
+	if strings.HasPrefix(name, "n=0 ") {
+		return zeroItem(strings.Contains(name, "cancelled-later"))
+	}
 	var n int
 	parts := strings.Fields(name)
 	fmt.Sscanf(parts[0], "n=%d", &n)
@@ -253,6 +299,12 @@ func run(rp *explore.Report, tier string) {
 		threads = []int{2, 3}
 	}
 	var k int64
+	for _, later := range []bool{false, true} {
+		k++
+		if rp.Mine(k) {
+			rp.Explore(zeroItem(later))
+		}
+	}
 	for _, T := range threads {
 		L := 2
 		if T == 3 {
@@ -303,5 +355,5 @@ func run(rp *explore.Report, tier string) {
 
 func init() {
 	reg.Register(&reg.Harness{Property: "C20", Name: "c20/limiter", Level: "model_checking", Bounds: [2]int{3, 4}, Run: run, Item: parseItem,
-		Rule: "items = limiter size x context mode of thread 0 x thread scripts over {W,y,n,r,R,D,H,S}; every interleaving within the deviation bound is executed on the real concurrencylimiter; non-trivial = executions in which at least one counted holder entered the critical section"})
+		Rule: "items = limiter size (0: nobody is admitted, 1, 2) x context mode of thread 0 x thread scripts over {W,y,n,r,R,D,H,S}; every interleaving within the deviation bound is executed on the real concurrencylimiter; non-trivial = executions in which at least one counted holder entered the critical section"})
 }
